@@ -7,6 +7,7 @@ assertions need equal exponents, divmod of (a, b) yields (a-b, a).
 
 R-C14-1  obligations: LinCombFxp(x, False) needs e(x) = 1; LinCombFxp(x) needs e(x) = 0; sums/comparisons
          agree; remove_scaling returns e = 0; conversions allocate at e = 1
+R-C14-3  the resolution setting is read at call time everywhere (no import-time constant / default capture)
 R-C14-2  reflected operators lift the left operand and call the forward method in the right order; LinComb
          operators defer to the fixed-point class
 """
@@ -507,6 +508,29 @@ def rule_reflected(repo, rule):
                            "fixed-point value", "defer/__sub__")
 
 
+def config_read_at_call_time(repo, rule, modname, setting, what):
+    """The documented way to configure `setting` is to assign the module attribute at run time, so every use must read
+    it when called: a module-level constant derived from it, or a default argument capturing it, goes stale."""
+    m = repo.module(modname)
+    n_uses = 0
+    for n in m.tree.body:
+        if isinstance(n, ast.Assign) and not any(norm(t) == setting for t in n.targets) and any(
+                isinstance(x, ast.Name) and x.id == setting for x in ast.walk(n.value)):
+            rule.violation("%s:%s" % (m.relpath, n.lineno), modname, norm(n)[:90],
+                           "module-level constant derived from `%s` is evaluated once at import: after `%s.%s = ...` the %s is "
+                           "computed with the old value" % (setting, modname, setting, what), "stale/%s/%s" % (setting, norm(n.targets[0])))
+    for fi in m.functions.values():
+        if isinstance(fi.node, ast.Lambda):
+            continue
+        for d in fi.node.args.defaults + [x for x in fi.node.args.kw_defaults if x is not None]:
+            if any(isinstance(x, ast.Name) and x.id == setting for x in ast.walk(d)):
+                rule.violation(fi.loc(), fi.fq, "default %s" % norm(d), "default argument captures `%s` at definition time" % setting,
+                               "stale/%s/%s" % (setting, fi.fq))
+        n_uses += sum(1 for x in ast.walk(fi.node) if isinstance(x, ast.Name) and x.id == setting and isinstance(x.ctx, ast.Load))
+    rule.ok("%s:1" % m.relpath, modname, "%d reads of `%s` inside functions (evaluated at call time)" % (n_uses, setting))
+    return n_uses
+
+
 def check(repo, rep, tier):
     rep.explanation = ("A units analysis: every method of LinCombFxp is abstractly executed once per combination of operand "
                        "kinds (int, float, LinComb, LinCombBool, LinCombFxp; isinstance tests resolved from the kind) with each "
@@ -522,3 +546,5 @@ def check(repo, rep, tier):
     rule_scale(repo, r1)
     r2 = rep.rule("R-C14-2", "reflected operators and deference to the fixed-point type", floor=10)
     rule_reflected(repo, r2)
+    r3 = rep.rule("R-C14-3", "the resolution is read at call time (holds for every resolution setting)", floor=1)
+    config_read_at_call_time(repo, r3, FX, "resolution", "scaling")
